@@ -164,6 +164,9 @@ var touches = []string{
 	"var added = (typeof added == 'number' ? added : 0) + 1; G2 = (typeof G2 == 'number' ? G2 : 0) + 1; log(added, G2);",
 	"goList.push(goList.length); log(goList.join());",
 	"Object.defineProperty(tally, 'n', {value: tally.n + 1, writable: true}); tally.tmp = 1; log(tally.n, delete tally.tmp, typeof tally.tmp);",
+	// bridged Go functions and slices of the template: results are built in the calling runtime, the slice header is per runtime
+	"if (typeof goEcho === 'function') { var ge = goEcho([1, 2]); Object.getPrototypeOf(ge).viaGo = (Object.getPrototypeOf(ge).viaGo || 0) + 1; log(Object.getPrototypeOf(ge) === Array.prototype, Array.prototype.viaGo, goAdd(2, 3)); try { goAdd('x', 1) } catch (e) { log(e instanceof TypeError || e instanceof RangeError) } }",
+	"if (typeof goList === 'object') { goList.push(goList.length); goList.push(7); log(goList.length, goList.join()) }",
 	// objects the runtime creates itself take their prototype from an internal table: write through it
 	"try { decodeURIComponent('%') } catch (e) { var p = Object.getPrototypeOf(e); p.tag = (p.tag || 0) + 1; log(e instanceof URIError, p.tag, URIError.prototype.tag) }",
 	"try { eval('(') } catch (e) { var p = Object.getPrototypeOf(e); p.tag = (p.tag || 0) + 1; log(e instanceof SyntaxError, p.tag, SyntaxError.prototype.tag) }",
@@ -471,6 +474,10 @@ func checkOne(c *run.Ctx, in Input) {
 	mkTemplate := func() *otto.Otto {
 		t := otto.New()
 		t.Set("log", hostLog)
+		// bridged Go values: the wrappers otto makes for them are copied with the runtime
+		t.Set("goEcho", func(x []int) []int { return x })
+		t.Set("goAdd", func(a, b int) int { return a + b })
+		t.Set("goList", []int{1, 2, 3})
 		l := attach(t)
 		execute(t, l, in.Setup)
 		return t
